@@ -866,7 +866,11 @@ impl<'a> Parser<'a> {
                     ix += 3;
                     loop {
                         if ix >= self.re.len() {
-                            return Err(Error::ParseError(ix, ParseError::UnclosedOpenParen));
+                            // an escape at the very end can step past the end of the pattern
+                            return Err(Error::ParseError(
+                                self.re.len(),
+                                ParseError::UnclosedOpenParen,
+                            ));
                         }
                         match bytes[ix] {
                             b')' => {
